@@ -206,7 +206,7 @@ func (boundary) Describe() core.EngineInfo {
 		Real:       []string{"goatlang NewFunc adapters, call/callReady, mkFunc, newMethod, VM.Call/Func/Set/Get, constructors and accessors, slices.SortFunc native"},
 		Stubs:      []string{"host natives are the simulator's (they are the seam)", "SimDisk serves the script"},
 		Assumes:    []string{"an untyped constant passed to a native arrives as goatlang's untyped number: payload compared, type not", "scalars, nil and slices of scalars only", "natives that break their own declared result count are host bugs and are not injected"},
-		ProbesWant: []string{"form_1", "form_2", "form_3", "form_4", "form_5", "form_6", "ctx_stmt", "ctx_stmtret", "ctx_assign", "ctx_expr", "ctx_nested", "ctx_fnvar", "ctx_loop", "ctx_viafn", "ctx_method", "ctx_reenter", "ctx_recurse", "ctx_sort", "hostcall_swap", "round_2", "fault_propagated", "fault_handled", "hostcall_ok", "hostcall_too_many", "spread"},
+		ProbesWant: []string{"form_1", "form_2", "form_3", "form_4", "form_5", "form_6", "ctx_stmt", "ctx_stmtret", "ctx_assign", "ctx_expr", "ctx_nested", "ctx_fnvar", "ctx_loop", "ctx_viafn", "ctx_method", "ctx_reenter", "ctx_recurse", "ctx_sort", "hostcall_swap", "hostcall_variadic", "round_2", "fault_propagated", "fault_handled", "hostcall_ok", "hostcall_too_many", "spread"},
 	}
 }
 
@@ -364,6 +364,10 @@ func (e boundary) genPlan(r *core.PRNG) *BPlan {
 			h = BHostCall{Fn: "swap", A: swapA}
 			a = swapA
 		}
+		if r.Chance(1, 6) {
+			a = 1 + r.Intn(6)
+			h = BHostCall{Fn: "variadic", A: a}
+		}
 		for j := 0; j < h.A; j++ {
 			h.Params = append(h.Params, r.Intn(len(bPool)))
 		}
@@ -473,6 +477,7 @@ func (p *BPlan) render() string {
 		}
 	}
 	ln("func typed(a int, b string, c float64, d bool, e byte) (int, string, float64, bool, byte) { return a, b, c, d, e }")
+	ln("func vid(a any, rest ...any) (any, int, any) { if len(rest) > 0 { return a, len(rest), rest[len(rest)-1] }; return a, 0, nil }")
 	ln("func pass1(a any, b any) any { return a }")
 	// callbacks and methods wrap an inner site
 	for si, s := range p.Sites {
@@ -958,6 +963,28 @@ func (run *bRun) siteCtx(si int) string {
 func (run *bRun) hostCall(hc *BHostCall) {
 	if hc.Fn == "swap" {
 		run.hostSwap(hc)
+		return
+	}
+	if hc.Fn == "variadic" {
+		// a variadic script function called from the host with 1..6 parameters
+		var ps []goatlang.Value
+		for _, pi := range hc.Params {
+			ps = append(ps, bPool[pi].value())
+		}
+		run.h.C.Inc("hostcall_variadic")
+		rets, err := run.h.Call("main.vid", 3, ps...)
+		if err != nil || len(rets) != 3 {
+			run.fail("C19/count", "variadic-failed", "Call(main.vid) with %d parameters failed: %v (%d results)", len(ps), err, len(rets))
+			return
+		}
+		n := len(hc.Params) - 1
+		last := BVal{K: "nil"}
+		if n > 0 {
+			last = bPool[hc.Params[n]]
+		}
+		if !bPool[hc.Params[0]].matches(rets[0]) || rets[1].Int() != n || !last.matches(rets[2]) {
+			run.fail("C19/count", "variadic-values", "main.vid(a, rest...) called with %d parameters returned %s; want the first parameter %s, %d variadic ones, the last of them %s", len(ps), core.ValuesString(rets), bPool[hc.Params[0]], n, last)
+		}
 		return
 	}
 	name := fmt.Sprintf("main.id%d_%d", hc.A, hc.B)
